@@ -1,6 +1,7 @@
 \* storage level, exhaustive over call sequences of ANY length: head 0..2,
 \* <= 2 slots, ids {a, b, blank}, 0..2 txs per slot, newClasses {} or {k1}; every view
 \* obtainable in every reachable state is checked (EveryPotentialViewOK)
+\* measured: 8,379 distinct / 193,144 generated states, depth 12 (~10 s on 4 workers)
 CONSTANTS
   MaxHead = 2
   MaxSlots = 2
